@@ -38,7 +38,7 @@ class VC(object):
         self.witness_terms = witness_terms or {}
 
     def query(self):
-        if self.expect == 'sat':
+        if self.expect in ('sat', 'sat-info'):
             return list(self.pc) + [self.goal]
         return list(self.pc) + [z3.Not(self.goal)]
 
@@ -178,8 +178,8 @@ class Engine(object):
         (cached per formula: path-condition conjuncts are shared by many VCs)"""
         fid = f.get_id()
         hit = self._hint_cache.get(fid)
-        if hit is not None:
-            return hit
+        if hit is not None and hit[0].eq(f):
+            return hit[1]
         seen = set()
         arrays = []
         ufapps = []
@@ -214,7 +214,7 @@ class Engine(object):
                 ufapps.append(t)
             todo.extend(t.children())
         res = (arrays, ufapps)
-        self._hint_cache[fid] = res
+        self._hint_cache[fid] = (f, res)
         return res
 
     def hint_terms(self, pc, goal, skolems, limit=40):
@@ -242,11 +242,11 @@ class Engine(object):
         def rank(a):
             i = a.get_id()
             r = rc.get(i)
-            if r is None:
-                r = (0 if a.sort().range() == z3.BoolSort() else 1,
-                     1 if (z3.is_const(a) and a.decl().name().startswith('H.')) else 0)
+            if r is None or not r[0].eq(a):
+                r = (a, (0 if a.sort().range() == z3.BoolSort() else 1,
+                         1 if (z3.is_const(a) and a.decl().name().startswith('H.')) else 0))
                 rc[i] = r
-            return r
+            return r[1]
         arrays.sort(key=rank)
         hints = []
         for skc in skolems:
@@ -289,8 +289,8 @@ class Engine(object):
     def has_quant(self, t):
         i = t.get_id()
         c = self._quant_cache
-        if i in c:
-            return c[i]
+        if i in c and c[i][0].eq(t):
+            return c[i][1]
         todo = [t]
         seen = set()
         r = False
@@ -304,7 +304,7 @@ class Engine(object):
                 r = True
                 break
             todo += x.children()
-        c[i] = r
+        c[i] = (t, r)
         return r
 
     def feasible(self, st):
@@ -313,9 +313,11 @@ class Engine(object):
         if not st.pc:
             return True
         qf = [c for c in st.pc if not self.has_quant(c)]
+        # keyed by AST ids; the entry keeps the ASTs alive (z3 recycles the id of a freed AST) and is compared again
         key = tuple(c.get_id() for c in qf)
-        if key in self._feas_cache:
-            return self._feas_cache[key]
+        hit = self._feas_cache.get(key)
+        if hit is not None and len(hit[1]) == len(qf) and all(a.eq(b) for a, b in zip(hit[1], qf)):
+            return hit[0]
         self.feas_checks += 1
         s = z3.Solver()
         s.set('timeout', self.feas_timeout_ms)
@@ -323,7 +325,7 @@ class Engine(object):
             s.add(c)
         r = s.check()
         ok = (r != z3.unsat)
-        self._feas_cache[key] = ok
+        self._feas_cache[key] = (ok, list(qf))
         return ok
 
     def branch(self, st, cond, label=None):
